@@ -4,6 +4,7 @@ import EaselModel.Dist.WeiThm
 import EaselModel.Dist.GevThm
 import EaselModel.Dist.SpecialFamThm
 import EaselModel.Dist.MixThm
+import EaselModel.Dist.IntegralThm
 import EaselModel.Dist.Edge
 /-! # C10 — each distribution's pdf, cdf, survival, log and inverse functions agree
 
@@ -275,6 +276,16 @@ theorem hxp_cdf_add_surv_partial (x mu : ℝ) (qs : List (ℝ × ℝ)) (hq : ∀
 example : |Mix.hxp_cdf (1 : ℝ) 0 [(0.25, 1), (0.75, 2)] + Mix.hxp_surv (1 : ℝ) 0 [(0.25, 1), (0.75, 2)] -
     ([(0.25, 1), (0.75, 2)].map Prod.fst).sum| ≤ 2.5e-17 * ([((0.25 : ℝ), (1 : ℝ)), (0.75, 2)].map Prod.fst).sum :=
   (hxp_cdf_add_surv_partial 1 0 _ (by intro qp h; simp at h; rcases h with h | h <;> subst h <;> norm_num)).2 (by norm_num)
+
+/-! ## The pdf integrates to cdf differences -/
+
+/-- Fundamental theorem of calculus on the proved derivatives: Gumbel for all `a b`; exponential inside the support.
+    `_partial`: stated for these two families only (Weibull and GEV have `HasDerivAt cdf pdf` on the open support, from
+    which the same follows on closed sub-intervals; gamma/sxp/normal rest on the unproved special functions). -/
+theorem pdf_integrates_to_cdf_differences_partial (μ l a b : ℝ) :
+    (∫ x in a..b, gumbelPdf μ l x = gumbelCdf μ l b - gumbelCdf μ l a) ∧
+      (μ < a → a ≤ b → ∫ x in a..b, expPdf μ l x = expCdf μ l b - expCdf μ l a) :=
+  ⟨IntegralThm.gumbel_integral_pdf μ l a b, IntegralThm.exp_integral_pdf⟩
 
 /-! ## Sampling -/
 
